@@ -31,4 +31,12 @@ let () =
       let pl = List.map (fun s -> match String.split_on_char ':' s with [x; y] -> (z_of_hex x, z_of_hex y) | _ -> failwith "pt") (String.split_on_char ',' pts) in
       ((match interp0 (z_of_hex q) pl with Some z -> hex_of_z z | None -> "fail"), out)
     | _ -> failwith "arity");
+  (* threshold DSS runs: every signer's own product v_j (from its own process) -> the mu resp. s the honest parties logged *)
+  register "dss_lincomb" (function [q; pts; out] ->
+      let pl = List.map (fun s -> match String.split_on_char ':' s with [x; y] -> (z_of_hex x, z_of_hex y) | _ -> failwith "pt") (String.split_on_char ',' pts) in
+      ((match dss_lincomb (z_of_hex q) (List.map fst pl) (List.map snd pl) with Some z -> hex_of_z z | None -> "fail"), out)
+    | _ -> failwith "arity");
+  register "dss_r" (function [p; q; g; h; ga; mu; out] ->
+      ((match dss_r_from (grp p q g h) (z_of_hex ga) (z_of_hex mu) with Some z -> hex_of_z z | None -> "fail"), out)
+    | _ -> failwith "arity");
   main ()
